@@ -310,6 +310,11 @@ type cqrsGen struct {
 	// target, so Unmarshal(Marshal(v)) must be v whatever the target held.
 	used     bool
 	usedSeed uint64
+	// the message is not read at once (optional suffix +<seed>): between Marshal and Unmarshal the same marshaler marshals
+	// other values of the type (value seeds laterSeed, laterSeed+1, …; the value itself among them). A message owns its payload:
+	// what is marshalled later must not change a message already handed out (a publisher that batches does exactly this).
+	later     bool
+	laterSeed uint64
 }
 
 func (g cqrsGen) tok() string {
@@ -324,11 +329,22 @@ func (g cqrsGen) tok() string {
 	if g.used {
 		t += fmt.Sprintf("^%d", g.usedSeed)
 	}
+	if g.later {
+		t += fmt.Sprintf("+%d", g.laterSeed)
+	}
 	return t
 }
 
 func parseGen(s string) (cqrsGen, error) {
 	var g cqrsGen
+	if i := strings.Index(s, "+"); i >= 0 {
+		ls, err := strconv.ParseUint(s[i+1:], 10, 64)
+		if err != nil {
+			return g, fmt.Errorf("bad generator descriptor %q", s)
+		}
+		g.later, g.laterSeed = true, ls
+		s = s[:i]
+	}
 	if i := strings.Index(s, "^"); i >= 0 {
 		us, err := strconv.ParseUint(s[i+1:], 10, 64)
 		if err != nil {
@@ -652,6 +668,14 @@ func runCqrs(kind string, g cqrsGen) (req, obs string, serialisable bool) {
 		if err != nil {
 			return "err:marshal"
 		}
+		if g.later {
+			for k := uint64(0); k < 4; k++ {
+				other, _, _ := valueFor(cqrsGen{family: g.family, typ: g.typ, seed: g.laterSeed + k, ptr: g.ptr})
+				_, _ = mar.Marshal(other)
+			}
+			again, _, _ := valueFor(cqrsGen{family: g.family, typ: g.typ, seed: g.seed + 1, ptr: g.ptr})
+			_, _ = mar.Marshal(again)
+		}
 		if err := mar.Unmarshal(msg, target); err != nil {
 			return "err:unmarshal"
 		}
@@ -708,6 +732,13 @@ func cqrsCases(out *wh.Out, r *wh.Rng, n int) {
 	}
 	for i := 0; i < n; i++ {
 		emit("json", cqrsGen{family: "j", typ: i, seed: r.Next() >> 1, variant: r.Intn(nNameVariants), ptr: r.Bool()})
+	}
+	for i := 0; i < n/3; i++ {
+		// the message is read only after the marshaler has marshalled further values (see cqrsGen.later)
+		for _, kf := range [][2]string{{"json", "j"}, {"proto", "s"}, {"gogo", "g"}} {
+			emit(kf[0], cqrsGen{family: kf[1], typ: i, seed: r.Next() >> 1, variant: r.Intn(nNameVariants), ptr: true, later: true, laterSeed: r.Next() >> 1})
+			out.Count("cqrs.read_after_later_marshals." + kf[0])
+		}
 	}
 	for i := 0; i < n/2; i++ {
 		emit("proto", cqrsGen{family: "s", typ: i, seed: r.Next() >> 1, variant: r.Intn(nNameVariants), ptr: true})
